@@ -47,7 +47,7 @@ def _setup(vc):
     return n, n_total, theta, variables
 
 
-@contract("C06", "gaussian_prior", native=False)
+@contract("C06", "gaussian_prior", native=False, replay_with="priors_native")
 def gaussian_prior(vc):
     n, n_total, theta, variables = _setup(vc)
     mean = vc.vector("mean", n)
@@ -78,7 +78,7 @@ def gaussian_prior(vc):
     vc.ensures("cost_is_negative", vc.call(P, "cost", theta) == -val)
 
 
-@contract("C06", "exponential_prior", native=False)
+@contract("C06", "exponential_prior", native=False, replay_with="priors_native")
 def exponential_prior(vc):
     n, n_total, theta, variables = _setup(vc)
     beta = vc.vector("beta", n, pos=True)
@@ -114,7 +114,7 @@ def exponential_prior(vc):
     vc.ensures_forall("bounds.support_is_nonnegative_half_line", n, lambda k: b.at(k) == (0.0, None))
 
 
-@contract("C06", "uniform_prior", native=False)
+@contract("C06", "uniform_prior", native=False, replay_with="priors_native")
 def uniform_prior(vc):
     n, n_total, theta, variables = _setup(vc)
     lower = vc.vector("lower", n)
@@ -146,7 +146,7 @@ def uniform_prior(vc):
     vc.ensures_forall("bounds.support_is_the_interval", n, lambda k: b.at(k) == (lower[k], upper[k]))
 
 
-@contract("C06", "validate_variable_indices", native=False)
+@contract("C06", "validate_variable_indices", native=False, replay_with="priors_native")
 def validate_variable_indices(vc):
     n = vc.int("n", lo=1)
     n_total = vc.int("n_total", lo=1)
@@ -165,7 +165,7 @@ CONFIGS = [["G"], ["E"], ["U"], ["G", "E"], ["U", "G"], ["E", "U"], ["E", "U", "
 SIZES = {"G": 2, "E": 1, "U": 2}
 
 
-@contract("C06", "joint_prior", native=False)
+@contract("C06", "joint_prior", native=False, replay_with="priors_native")
 def joint_prior(vc):
     cfg = vc.choice("components", CONFIGS)
     _install_rng(vc)
@@ -237,7 +237,7 @@ def _bound_eq(vc, b, v, cb, k):
     return S.And(*res)
 
 
-@contract("C06", "posterior", native=False)
+@contract("C06", "posterior", native=False, replay_with="priors_native")
 def posterior(vc):
     """Posterior = likelihood + prior (value, gradient, cost, cost-gradient); initial guesses are prior draws in
     increasing cost"""
@@ -268,7 +268,7 @@ def posterior(vc):
     vc.ensures_forall("cost_gradient_is_negative_sum", n, lambda k: cg[k] == -(Lg[k] + Pg[k]))
 
 
-@contract("C06", "initial_guesses", native=False)
+@contract("C06", "initial_guesses", native=False, replay_with="priors_native")
 def initial_guesses(vc):
     from pyvc.objlist import F, as_array
     n_guesses = vc.int("n_guesses", lo=1)
